@@ -278,13 +278,19 @@ def units(world):
 VALID_TAG = r"[A-Za-z_][A-Za-z0-9_-]*"       # from the property's quantifier text
 
 
-def _str_consts_in(node, fname):
-    """string literal arguments of calls to re.<fname> inside a function node"""
+def _str_consts_in(node, fname, module_globals=None):
+    """pattern arguments of calls to re.<fname> inside a function node: string literals, or names of module-level
+    string constants; None stands for an argument that is neither (the caller then decides nothing)"""
     out = []
     for n in ast.walk(node):
-        if (isinstance(n, ast.Call) and isinstance(n.func, ast.Attribute) and n.func.attr == fname
-                and n.args and isinstance(n.args[0], ast.Constant) and isinstance(n.args[0].value, str)):
-            out.append(n.args[0].value)
+        if isinstance(n, ast.Call) and isinstance(n.func, ast.Attribute) and n.func.attr == fname and n.args:
+            a = n.args[0]
+            if isinstance(a, ast.Constant) and isinstance(a.value, str):
+                out.append(a.value)
+            elif isinstance(a, ast.Name) and isinstance((module_globals or {}).get(a.id), str):
+                out.append(module_globals[a.id])
+            else:
+                out.append(None)
     return out
 
 
@@ -333,9 +339,15 @@ class LabelUnit:
                val if ok else r.value,), cex={"args": {"kind": "label-order"}})
         find = val.args[0].args[0] if ok and shape else None
         # the stripping regex at its two call sites
-        strips = _str_consts_in(world.func("ctparse._ctparse").node, "sub") + _str_consts_in(world.func("ctparse.ctparse").node, "sub")
-        ob("same-strip-pattern-on-both-paths", ["C10"], len(strips) == 2 and strips[0] == strips[1],
-           "label stripping patterns differ between match and no-match path: %r" % (strips,))
+        mg = world.modules["ctparse.ctparse"].globals
+        strips = _str_consts_in(world.func("ctparse._ctparse").node, "sub", mg) + _str_consts_in(world.func("ctparse.ctparse").node, "sub", mg)
+        if len(strips) != 2 or None in strips:
+            o = ob("same-strip-pattern-on-both-paths", ["C10"], True)
+            o.status, o.detail = "unsupported", "expected one re.sub(<pattern constant>, ...) on each path, found %r" % (strips,)
+            strips = [x for x in strips if x is not None]
+        else:
+            ob("same-strip-pattern-on-both-paths", ["C10"], strips[0] == strips[1],
+               "label stripping patterns differ between match and no-match path: %r" % (strips,))
         S = z3.StringSort()
         w = z3.String("w")
         valid = PatternModel(0, "#" + VALID_TAG, {}, ignorecase=False).reglan()
@@ -344,12 +356,15 @@ class LabelUnit:
 
         def lemma(clause, pattern, mk, detail):
             if pattern is None:
-                ob(clause, ["C10"], False, "pattern constant not found")
+                # the function no longer has the shape the constant is read from: nothing is decided about the lemma
+                o = ob(clause, ["C10"], True)
+                o.status, o.detail = "unsupported", "pattern constant not found (the function is not `re.findall(P, txt)` + an order-preserving map any more)"
                 return
             try:
                 L = PatternModel(0, pattern, {}, ignorecase=False).reglan()
             except Exception as e:
-                ob(clause, ["C10"], False, "cannot parse %r: %s" % (pattern, e))
+                o = ob(clause, ["C10"], True)
+                o.status, o.detail = "unsupported", "cannot parse %r: %s" % (pattern, e)
                 return
             s = z3.Solver()
             s.set("timeout", 20000)
